@@ -9,7 +9,7 @@ LEVEL = {
  'C01': ('E2+E1', 'runtime contract (fiber kernel) scenarios: swap targets saved/not running, deferred actions, wake-before-switch windows, over all interleavings of 2 kernel threads within the bounds; plus the fd wait of fiber_event_native.c (a further user of the deferred hand-off) as an E1 step shared with C08'),
  'C02': ('E2', 'Chase-Lev deque of work_stealing_deque.c: every interleaving (SC) and every store-buffer reordering (x86-TSO) of one owner and 1-2 thieves within the stated operation counts, incl. the growth boundary'),
  'C03': ('E1+E2', 'rely/guarantee step over the mutex counter (one lock/trylock/unlock from any number < 2^20 of contenders with arbitrary interference; covers histories of any length for the counter protocol) + mutex over the fiber contract kernel: all interleavings of 2-3 fibers'),
- 'C04': ('E2', 'join / detach (quick) and tryjoin, join-with-NULL-result, two concurrent actors (thorough, stretch) against the real fiber.c completion path over the fiber contract kernel: all interleavings of the stated actors; the VM liveness ghost decides reclaimed-once / never touched afterwards'),
+ 'C04': ('E2', 'join / detach (quick) and tryjoin, join-with-NULL-result (thorough) by ONE acting fiber against the real fiber.c completion path over the fiber contract kernel: all interleavings of the stated actors; the VM liveness ghost decides reclaimed-once / never touched afterwards'),
  'C05': ('E1+E2', 'rely/guarantee accounting step (one signal/broadcast/wait from any number of announced waiters, arbitrary concurrent announcements) + real fiber_cond.c and the real unlock-and-wait path over the fiber contract kernel, with fiber_mutex replaced by its C03 contract: all interleavings of 1-2 waiters with a signaller (signal / broadcast, mutex held or released)'),
  'C06': ('E1', 'rely/guarantee step over the semaphore counter: every operation of fiber_semaphore.c from an arbitrary counter value with arbitrary interference before each atomic step (covers histories of any length for the counter protocol); the mpmc wait queue underneath (C13) is assumed, not proved - a partial claim, see DESIGN.md section 5'),
  'C07': ('E1+E2', 'inductive step over the 64-bit lock word for every operation from an arbitrary invariant-satisfying state with arbitrary interference (covers histories of any length for the word protocol) + small concurrent scenario'),
